@@ -74,6 +74,15 @@ fn main() {
         println!("libs ok={ok} rejected={bad} bytes={bytes} in {:?}; features {feats:?}", t0.elapsed());
         return;
     }
+    if id == "probe-fe" {
+        // check probe-fe <text|@file>: run the whole front end (parse, discover, resolve against the C14 fixtures' packages, encode)
+        let text = rest.join(" ");
+        let text = if let Some(f) = text.strip_prefix('@') { std::fs::read_to_string(f).unwrap() } else { text };
+        let mut st = props::c14::Stages::default();
+        let r = props::c14::front_end(&text, &props::c14::probe_packages(), &mut st);
+        println!("stages parsed={} discovered={} resolved={} encoded={} result={r:?}", st.parsed, st.discovered, st.resolved, st.encoded);
+        return;
+    }
     if id == "probe" {
         // check probe <text>: show wac tokens, wac verdict, reference verdicts
         let text = rest.join(" ");
